@@ -96,8 +96,46 @@ def run(ctx):
                                        "probes": len(data["probes"]), "names": data["n_names"], "profiles": data["profiles"]}
     for c in cases[100:103]:
         ctx.sample(c["desc"])
+    quick_cli(ctx, listed)
     if ctx.tier == "thorough":
         thorough_cli(ctx, listed)
+
+
+def quick_cli(ctx, listed):
+    """the command-line tool: unknown selectors are refused wherever they stand - alone, next to valid selectors of the other
+    option, in every position of a list - and listed sources are accepted in combination"""
+    cli = common.build_cli()
+    cert = os.path.join(common.REPO, "v3/testdata/caBasicConstCrit.pem")
+    good_s = [x for x in listed if x not in ("Unknown",)][:3] or ["RFC5280"]
+    bad_s, bad_n, good_n = "Mozila", "e_no_such_lint", "e_ca_common_name_missing"
+    refuse = [
+        ["-includeSources", bad_s], ["-excludeSources", bad_s],
+        ["-includeSources", good_s[0], "-excludeSources", bad_s], ["-excludeSources", good_s[0], "-includeSources", bad_s],
+        ["-excludeSources", bad_s, "-includeSources", ",".join(good_s)], ["-includeSources", good_s[0] + "," + bad_s],
+        ["-excludeSources", bad_s + "," + good_s[0]], ["-includeSources", bad_s, "-excludeSources", bad_s],
+        ["-includeNames", bad_n], ["-excludeNames", bad_n], ["-includeNames", good_n + "," + bad_n], ["-excludeNames", bad_n + "," + good_n],
+        ["-includeNames", good_n, "-excludeNames", bad_n], ["-excludeNames", good_n, "-includeNames", bad_n],
+        ["-includeSources", good_s[0], "-excludeNames", bad_n], ["-excludeSources", bad_s, "-includeNames", good_n],
+    ]
+    nbad = 0
+    for flags in refuse:
+        for mode in ([cert], ["-list-lints-source"]):
+            rc, so, se = common.sh([cli] + flags + mode, timeout=60)
+            ctx.add_eval(1, traces=1)
+            if rc == 0:
+                nbad += 1
+                ctx.violation("cli-unknown-selector-ignored:" + " ".join(flags), "zlint %s %s exits 0: an unknown source or lint name is silently ignored" % (" ".join(flags), " ".join(mode)[-40:]),
+                              {"input": flags + mode, "observed": {"rc": rc, "stdout": so[:300]}})
+    ctx.oblige("CLI refuses unknown sources and lint names in every flag, alone and next to valid selectors (%d invocations)" % (2 * len(refuse)), nbad == 0)
+    accept = [["-includeSources", ",".join(good_s)], ["-excludeSources", good_s[0], "-includeSources", good_s[-1]], ["-includeNames", good_n, "-excludeSources", "Mozilla"]]
+    nacc = 0
+    for flags in accept:
+        rc, so, se = common.sh([cli] + flags + [cert], timeout=60)
+        ctx.add_eval(1, traces=1)
+        if rc != 0 or not so.strip().startswith("{"):
+            nacc += 1
+            ctx.violation("cli-listed-selector-refused:" + " ".join(flags), "zlint %s fails: %s" % (" ".join(flags), se.strip()[-200:]), {"input": flags, "observed": {"rc": rc, "stderr": se[-300:]}})
+    ctx.oblige("CLI accepts listed sources and names in combination", nacc == 0)
 
 
 def thorough_cli(ctx, listed):
